@@ -856,3 +856,173 @@ func E3RayHull(c *core.Ctx, r *core.Report) {
 	}
 	r.Floor("E3.ray-cases", 4)
 }
+
+// E3BoundsExtrema: the interior extrema of curves are each examined independently, and the arc
+// extreme angles pair the radii with the right trigonometric factor.
+func E3BoundsExtrema(c *core.Ctx, r *core.Report) {
+	r.Rule("E3.extrema-independent", "Path.Bounds: every root returned by the derivative's root solver (and the single root of the quadratic case) guards, in an if statement placed directly in the case body (not in the else-branch of another root's test), folds into both the min and the max accumulator of its axis; a curve can have two interior extrema on one axis")
+	r.Rule("E3.arc-extrema", "Path.Bounds, arc case: with x(θ)=cx+rx·cosθ·cosφ−ry·sinθ·sinφ and y(θ)=cy+rx·cosθ·sinφ+ry·sinθ·cosφ the extreme angles are atan2(∓ry·sinφ, rx·cosφ) and atan2(ry·cosφ, rx·sinφ): in both Atan2 calls the first argument carries ry and the second rx, and the two calls use sinφ/cosφ crosswise")
+	p := c.MustPkg("")
+	info := p.TypesInfo
+	fd := core.MustFuncDecl(p, "Path.Bounds")
+	accs, ok := rectAccs(p, fd)
+	if !ok {
+		panic(core.Infra("Bounds accumulators not found"))
+	}
+	accIdx := func(id *ast.Ident) int {
+		o := core.ObjOf(info, id)
+		for i, a := range accs {
+			if a == o {
+				return i
+			}
+		}
+		return -1
+	}
+	foldsIn := func(n ast.Node) map[int]bool {
+		out := map[int]bool{}
+		ast.Inspect(n, func(m ast.Node) bool {
+			if as, ok := m.(*ast.AssignStmt); ok {
+				for i, l := range as.Lhs {
+					if id, ok := l.(*ast.Ident); ok && accIdx(id) >= 0 && i < len(as.Rhs) {
+						if minmaxTree(info, as.Rhs[i]) != nil {
+							out[accIdx(id)] = true
+						}
+					}
+				}
+			}
+			return true
+		})
+		return out
+	}
+	mentionsIdent := func(e ast.Node, name string) bool {
+		found := false
+		ast.Inspect(e, func(m ast.Node) bool {
+			if id, ok := m.(*ast.Ident); ok && id.Name == name {
+				found = true
+			}
+			return !found
+		})
+		return found
+	}
+	roots := 0
+	for _, cc := range cmdSwitchClauses(p, fd) {
+		label := core.CaseLabel(info, cc)
+		// segments of the case body delimited by root-solver assignments
+		type rootSet struct {
+			names []string
+			from  int
+		}
+		var sets []rootSet
+		for i, s := range cc.Body {
+			as, ok := s.(*ast.AssignStmt)
+			if !ok || len(as.Rhs) != 1 {
+				continue
+			}
+			call, ok := core.Unparen(as.Rhs[0]).(*ast.CallExpr)
+			if !ok {
+				continue
+			}
+			if f := core.CalleeOf(info, call); f == nil || f.Name() != "solveQuadraticFormula" {
+				continue
+			}
+			var names []string
+			for _, l := range as.Lhs {
+				if id, ok := l.(*ast.Ident); ok {
+					names = append(names, id.Name)
+				}
+			}
+			sets = append(sets, rootSet{names, i})
+		}
+		for si, rs := range sets {
+			end := len(cc.Body)
+			if si+1 < len(sets) {
+				end = sets[si+1].from
+			}
+			for _, name := range rs.names {
+				roots++
+				key := fmt.Sprintf("canvas.Path.Bounds|%s|root set %d|%s", label, si+1, name)
+				found := false
+				for _, s := range cc.Body[rs.from+1 : end] {
+					is, ok := s.(*ast.IfStmt)
+					if !ok || !mentionsIdent(is.Cond, name) {
+						continue
+					}
+					fs := foldsIn(is.Body)
+					if (fs[0] && fs[2]) || (fs[1] && fs[3]) {
+						found = true
+					}
+				}
+				if found {
+					r.OK("E3.extrema-independent", key, c.Pos(cc.Body[rs.from].Pos()), "")
+				} else {
+					r.Fail("E3.extrema-independent", key, c.Pos(cc.Body[rs.from].Pos()), fmt.Sprintf("root `%s` of the derivative is not tested by its own if statement in the case body (e.g. it is only examined in the else-branch of the other root): when both roots are interior the extreme at `%s` is not folded and the box cuts through the curve", name, name))
+				}
+			}
+		}
+		// arc extremes
+		if hasCallTo(info, cc, "ellipseToCenter") {
+			var rx, ry string
+			for _, s := range cc.Body {
+				as, ok := s.(*ast.AssignStmt)
+				if !ok || len(as.Lhs) != len(as.Rhs) {
+					continue
+				}
+				for i, rhs := range as.Rhs {
+					ie, ok := core.Unparen(rhs).(*ast.IndexExpr)
+					if !ok || !core.IsPathDataSel(info, ie.X) {
+						continue
+					}
+					_, k, ok := linForm(info, ie.Index)
+					id, isId := as.Lhs[i].(*ast.Ident)
+					if !ok || !isId {
+						continue
+					}
+					if k == 1 {
+						rx = id.Name
+					}
+					if k == 2 {
+						ry = id.Name
+					}
+				}
+			}
+			if rx == "" || ry == "" {
+				r.Fail("E3.arc-extrema", "canvas.Path.Bounds|"+label+"|radii", c.Pos(cc.Pos()), "the radii decoded at offsets +1/+2 were not found")
+				continue
+			}
+			type at struct {
+				name       string
+				a0, a1     ast.Expr
+				pos        token.Pos
+				sin0, cos0 bool
+			}
+			var calls []at
+			for _, s := range cc.Body {
+				as, ok := s.(*ast.AssignStmt)
+				if !ok || len(as.Lhs) != 1 || len(as.Rhs) != 1 {
+					continue
+				}
+				if name, call := core.MathFunc(info, as.Rhs[0]); name == "Atan2" && len(call.Args) == 2 {
+					calls = append(calls, at{name: types.ExprString(as.Lhs[0]), a0: call.Args[0], a1: call.Args[1], pos: call.Pos(),
+						sin0: mentionsIdent(call.Args[0], "sinphi"), cos0: mentionsIdent(call.Args[0], "cosphi")})
+				}
+			}
+			r.Count("E3.arc-atan2", len(calls))
+			for _, a := range calls {
+				key := "canvas.Path.Bounds|" + label + "|" + a.name
+				okRadii := mentionsIdent(a.a0, ry) && !mentionsIdent(a.a0, rx) && mentionsIdent(a.a1, rx) && !mentionsIdent(a.a1, ry)
+				okTrig := a.sin0 != a.cos0 && mentionsIdent(a.a1, "sinphi") != mentionsIdent(a.a1, "cosphi") && a.sin0 != mentionsIdent(a.a1, "sinphi")
+				if okRadii && okTrig {
+					r.OK("E3.arc-extrema", key, c.Pos(a.pos), types.ExprString(a.a0)+" , "+types.ExprString(a.a1))
+				} else {
+					r.Fail("E3.arc-extrema", key, c.Pos(a.pos), fmt.Sprintf("math.Atan2(%s, %s): the first argument must carry %s (coefficient of sinθ) and the second %s (coefficient of cosθ), with sinφ and cosφ crosswise; otherwise the extreme angle is wrong for rotated ellipses with rx≠ry and the box misses the arc's extreme", types.ExprString(a.a0), types.ExprString(a.a1), ry, rx))
+				}
+			}
+			if len(calls) == 2 && calls[0].sin0 == calls[1].sin0 {
+				r.Fail("E3.arc-extrema", "canvas.Path.Bounds|"+label+"|crosswise", c.Pos(cc.Pos()), "both extreme angles use the same trigonometric factor in their first argument; the X and Y extremes differ by swapping sinφ and cosφ")
+			}
+		}
+	}
+	r.Count("E3.derivative-roots", roots)
+	r.Floor("E3.derivative-roots", 4)
+	r.Floor("E3.arc-atan2", 2)
+}
